@@ -51,8 +51,8 @@ def obs_cfg(navdir, pb):
 
 
 def _seqkind(i, L):
-    k = ('gen', 'genfn', 'lazy')[i % 3]
-    if L < 0 and k == 'lazy':
+    k = ('gen', 'genfn', 'lazy', 'sized', 'gen', 'maplike', 'lazy')[i % 7]
+    if L < 0 and k in ('lazy', 'sized', 'maplike'):
         k = 'gen'
     return k
 
@@ -200,7 +200,8 @@ def main(tier):
            'samples': [items[0][2], items[len(items) // 2][2], items[-1][2]],
            'drift_examples': V.notes.get('drift_examples', [])}
     return V.finish(cov, assumptions=[
-        'lazy sequences: counting iterator, generator, __getitem__/__len__ class; pulls are counted by the '
+        'lazy sequences: counting iterator, generator, __getitem__/__len__ class, sized iterable without subscription, '
+        'mapping-like (keys/get) iterable; pulls are counted by the '
         'sequence itself (an iterator cannot be pulled out of order or twice)',
         'sort/reverse/sequence-length/next-batches/statistics are excepted by the property and not used'])
 
